@@ -35,6 +35,9 @@ func (vc *VC) execBlocks(fn *ssa.Function, st0 *State, _ interface{}) []retRec {
 	out := map[edgeKey]*State{}
 	var rets []retRec
 	for _, b := range order {
+		if isTop {
+			vc.curBlock = b
+		}
 		var st *State
 		if b == fn.Blocks[0] {
 			st = st0.clone()
@@ -175,6 +178,7 @@ func (vc *VC) funcEnv(st *State, pos token.Pos) *Env {
 // enterLoop: check the invariant on entry, havoc what the loop may change, assume the invariant.
 func (vc *VC) enterLoop(li *LoopInfo, pre *State) *State {
 	li.pre = pre.clone()
+	li.mark = vc.n
 	env := vc.funcEnv(pre, li.Scope)
 	vc.bindIter(env, li, pre)
 	for _, cl := range vc.Con.OfLoop("let", li.Ordinal) {
@@ -316,7 +320,8 @@ func (vc *VC) closeLoop(li *LoopInfo) {
 			hc, pc := hv.comps(), pv.comps()
 			for i := range hc {
 				vc.alias[hc[i]] = pc[i]
-				vc.define(Eq(hc[i], pc[i]))
+				// a definition of the header symbol: relevant only where that symbol is used
+				vc.defs = append(vc.defs, def{hc[i], "", pc[i]})
 			}
 		}
 	}
@@ -325,6 +330,8 @@ func (vc *VC) closeLoop(li *LoopInfo) {
 		hnames = append(hnames, n)
 	}
 	sort.Strings(hnames)
+	// first every array the loop leaves alone (so that their header symbols resolve to the values before the loop) ...
+	var modified []string
 	for _, n := range hnames {
 		hc := li.hdrHeap[n]
 		same := true
@@ -337,10 +344,17 @@ func (vc *VC) closeLoop(li *LoopInfo) {
 		pv := li.pre.heap[n]
 		if same {
 			vc.alias[hc] = pv
-			vc.define(Eq(hc, pv))
+			vc.defs = append(vc.defs, def{hc, "", pv})
 			continue
 		}
-		// modified inside the loop: pre-existing locations outside the function's modifies set keep their value
+		modified = append(modified, n)
+	}
+	// ... then frames for the arrays it writes: what the loop did not write keeps its value (write-set inference), and
+	// pre-existing locations outside the function's modifies set keep their value
+	for _, n := range modified {
+		hc := li.hdrHeap[n]
+		pv := li.pre.heap[n]
+		vc.inferredFrame(n, hc, pv, li)
 		vc.loopFrame(n, hc, pv, li)
 	}
 }
@@ -699,4 +713,80 @@ func (vc *VC) lemmas(st *State, env *Env) {
 // old() = function entry.
 func (vc *VC) funcEnvAt(st *State, pos token.Pos) *Env {
 	return vc.funcEnv(st, pos)
+}
+
+// resolveTerm replaces symbols that were found equal to an earlier symbol (unchanged across a loop) by that symbol.
+func (vc *VC) resolveTerm(t string) string {
+	for i := 0; i < 8; i++ {
+		m := map[string]bool{}
+		symbols(t, m)
+		changed := false
+		for sym := range m {
+			if r := vc.resolve(sym); r != sym {
+				t = substSym(t, sym, r)
+				changed = true
+			}
+		}
+		if !changed {
+			break
+		}
+	}
+	return t
+}
+
+func symNumber(sym string) int {
+	i := strings.LastIndex(sym, "!")
+	if i < 0 {
+		return -1
+	}
+	n := 0
+	for _, c := range sym[i+1:] {
+		if c < '0' || c > '9' {
+			return -1
+		}
+		n = n*10 + int(c-'0')
+	}
+	return n
+}
+
+// inferredFrame: if every update of array n inside the loop touches an object/region whose identity is the same in every
+// iteration (a term over symbols that existed before the loop), then all other objects/regions of n are unchanged by the loop.
+func (vc *VC) inferredFrame(n, hdr, pre string, li *LoopInfo) {
+	if strings.HasPrefix(n, "G_") || vc.dry {
+		return
+	}
+	sort := vc.arrays[n]
+	if !strings.HasPrefix(sort, "(Array Int ") {
+		return
+	}
+	var targets []string
+	seen := map[string]bool{}
+	for _, w := range vc.writes {
+		if w.name != n || w.block == nil || !li.Body[w.block] {
+			continue
+		}
+		if w.target == "" {
+			return
+		}
+		t := vc.resolveTerm(w.target)
+		m := map[string]bool{}
+		symbols(t, m)
+		for sym := range m {
+			if k := symNumber(sym); k > li.mark {
+				return // the target may differ between iterations
+			}
+		}
+		if !seen[t] {
+			seen[t] = true
+			targets = append(targets, t)
+		}
+	}
+	if len(targets) == 0 || len(targets) > 6 {
+		return
+	}
+	var excl []string
+	for _, t := range targets {
+		excl = append(excl, Ne("o", t))
+	}
+	vc.define(fmt.Sprintf("(forall ((o Int)) (! (=> %s (= (select %s o) (select %s o))) :pattern ((select %s o))))", And(excl...), hdr, pre, hdr))
 }
